@@ -213,7 +213,8 @@ def gen_svg(rng, depth, root=True):
             elif r < 0.8:
                 kids.append(C(rand_comment(rng)))
             else:
-                kids.append(E(rng.choice(["style", "script"]), [], [T(rand_text(rng, 6))], SVG))
+                kids.append(E(rng.choice(["style", "script"]), [("href", "a.js")] if rng.random() < 0.3 else [],
+                              [T(rand_text(rng, 6))] if rng.random() < 0.6 else [], SVG))
     return E(name, foreign_attrs(rng, SVG_ATTRS), kids, SVG)
 
 
@@ -603,7 +604,7 @@ def variant(rng, node):
                 else:
                     parts.append("%s%s%s\"%s\"" % (sp, an, rng.choice(["=", "=", " ="]), esc_attr(v)))
             childless_foreign = (not html and ty == "StartTag" and i + 1 < len(pcs) and pcs[i + 1][1]["type"] == "EndTag" and
-                                 name not in RAWNAMES and name not in ("title", "textarea"))
+                                 name not in ("title", "textarea"))
             if (ty == "EmptyTag" or childless_foreign) and rng.random() < 0.5:
                 parts.append(" /" if last_unquoted or rng.random() < 0.5 else "/")
                 if childless_foreign:
@@ -680,3 +681,105 @@ def accept(rng, depth=3):
     if got != want or p.errors:
         return None, markup, want, got, p
     return doc, markup, want, got, p
+
+
+# ------------------------------------------------------------------ one injected syntax error
+INJECTIONS = ("dup-attr", "dup-attr-case", "no-doctype", "stray-end-tag", "nul-in-text", "bad-numeric-ref", "unknown-named-ref",
+              "abrupt-comment", "bogus-comment", "attrs-glued", "solidus-on-non-void", "end-tag-with-attr", "end-tag-with-solidus",
+              "eof-in-tag", "eof-in-comment", "truncated-with-open-element", "misnested-formatting", "text-in-table", "nested-a",
+              "missing-required-end-tag", "eof-in-doctype", "lt-in-attr-name", "quote-in-unquoted-value")
+_NEVER_OMISSIBLE = frozenset(["div", "section", "article", "span", "b", "i", "em", "strong", "a", "table", "ul", "ol", "dl", "form",
+                              "blockquote", "pre", "h1", "h2", "h3", "title", "textarea", "select", "button", "svg", "math", "figure",
+                              "details", "nav", "aside", "header", "footer", "main", "fieldset", "code", "small", "u", "s", "sub", "sup"])
+
+
+def inject_error(rng, node, kind=None):
+    """The explicit form of a conforming document with exactly ONE construct the standard defines as a parse error.
+    -> (markup, kind) or (None, kind) when the document offers no place for that kind."""
+    pcs = pieces(node)
+    kind = kind or rng.choice(INJECTIONS)
+    texts = [t for t, _ in pcs]
+    toks = [k for _, k in pcs]
+    starts = [i for i, k in enumerate(toks) if k["type"] in ("StartTag", "EmptyTag") and k["namespace"] == HTML]
+    body_i = next((i for i, k in enumerate(toks) if k["type"] == "StartTag" and k["name"] == "body"), None)
+    if body_i is None:
+        return None, kind
+    # positions inside body where flow content may be added: right after the body start tag
+    at = body_i + 1
+
+    def join():
+        return "".join(texts)
+    if kind in ("dup-attr", "dup-attr-case"):
+        cands = [i for i in starts if toks[i]["data"]]
+        if not cands:
+            i = rng.choice(starts)
+            texts[i] = texts[i][:-1] + ' id="a" %s="b">' % ("ID" if kind == "dup-attr-case" else "id")
+        else:
+            i = rng.choice(cands)
+            an = list(toks[i]["data"])[0][1]
+            if ":" in an or any(ord(c) > 127 for c in an):
+                return None, kind  # (only ASCII letters are case-folded by the tokenizer)
+            texts[i] = texts[i][:-1] + ' %s="z">' % (an.upper() if kind == "dup-attr-case" else an)
+    elif kind == "no-doctype":
+        texts = [t for t, k in zip(texts, toks) if k["type"] != "Doctype"]
+    elif kind == "stray-end-tag":
+        texts.insert(at, rng.choice(["</b>", "</div>", "</xyz>", "</td>", "</li>", "</h1>"]))
+    elif kind == "nul-in-text":
+        texts.insert(at, "a\x00b")
+    elif kind == "bad-numeric-ref":
+        texts.insert(at, rng.choice(["&#0;", "&#x80;", "&#xD800;", "&#x110000;", "&#xFFFE;", "&#1;", "&#65", "&#x41 "]))
+    elif kind == "unknown-named-ref":
+        texts.insert(at, rng.choice(["&bogusname;", "&amp", "&notit;"]) + " ")
+    elif kind == "abrupt-comment":
+        texts.insert(at, rng.choice(["<!-->", "<!--->", "<!--x--!>", "<!--a<!--b-->"]))
+    elif kind == "bogus-comment":
+        texts.insert(at, rng.choice(["<!x>", "<?xml version='1.0'?>", "</ >", "<!DOCTYPE html>"]))
+    elif kind == "attrs-glued":
+        texts.insert(at, '<span id="a"class="b">x</span>')
+    elif kind == "solidus-on-non-void":
+        texts.insert(at, rng.choice(["<div/>x</div>", "<span />x</span>", "<p/>"]))
+    elif kind == "end-tag-with-attr":
+        texts.insert(at, '<div>x</div class="a">')
+    elif kind == "end-tag-with-solidus":
+        texts.insert(at, "<div>x</div/>")
+    elif kind == "lt-in-attr-name":
+        texts.insert(at, '<span a<b="c">x</span>')
+    elif kind == "quote-in-unquoted-value":
+        texts.insert(at, "<span title=a\"b>x</span>")
+    elif kind == "misnested-formatting":
+        texts.insert(at, rng.choice(["<b><i>x</b></i>", "<b><p>x</b></p>", "<p><b>x</p>y</b>"]))
+    elif kind == "text-in-table":
+        texts.insert(at, rng.choice(["<table>x<tr><td>y</td></tr></table>", "<table><tr>x<td>y</td></tr></table>", "<table><b>x</b></table>"]))
+    elif kind == "nested-a":
+        texts.insert(at, rng.choice(["<a href=x>1<a href=y>2</a></a>", "<form><form></form></form>", "<button><button></button></button>",
+                                     "<h1><h2>x</h2></h1>", "<nobr><nobr>x</nobr></nobr>"]))
+    elif kind in ("eof-in-tag", "eof-in-comment", "eof-in-doctype", "truncated-with-open-element", "missing-required-end-tag"):
+        # a cut / deletion that leaves an element open whose end tag is required
+        opens = []
+        stack = []
+        for i, k in enumerate(toks):
+            if k["type"] == "StartTag":
+                stack.append(i)
+            elif k["type"] == "EndTag" and stack:
+                j = stack.pop()
+                if (k["namespace"] == HTML and k["name"] in _NEVER_OMISSIBLE and j > body_i and
+                        (kind != "missing-required-end-tag" or k["name"] not in ("title", "textarea"))):
+                    opens.append((j, i))
+        if kind == "eof-in-doctype":
+            return rng.choice(["<!DOCTYPE", "<!DOCTYPE html", "<!DOCTYPE html PUBLIC \"x", "<!DOCTYPE html SYSTEM 'y"]), kind
+        if kind == "eof-in-tag":
+            i = rng.choice([i for i in starts if i > body_i] or starts)
+            cut = texts[i][:max(2, len(texts[i]) - rng.randint(1, 3))]
+            return "".join(texts[:i]) + cut, kind
+        if kind == "eof-in-comment":
+            return "".join(texts[:at]) + rng.choice(["<!--x", "<!--x-", "<!--x--", "<!--", "<!-"]), kind
+        if not opens:
+            return None, kind
+        j, i = rng.choice(opens)
+        if kind == "truncated-with-open-element":
+            cutat = rng.randint(j + 1, i)
+            return "".join(texts[:cutat]), kind
+        texts[i] = ""   # missing-required-end-tag
+    else:
+        raise ValueError(kind)
+    return join(), kind
